@@ -16,6 +16,10 @@ import (
 // ---- C01: extract reproduces the indexed blob byte-for-byte ----
 
 func runC01(c *fw.Case) {
+	if desyncBin() != "" && c.Chance(1, 80, "c01.proc") {
+		runC01Proc(c)
+		return
+	}
 	s := genAsmScenario(c, true)
 	c.Note("%s", s.describe())
 	// store faults (separate configuration from the fault-free runs)
